@@ -33,6 +33,17 @@ impl CnfCase {
     pub fn tt(&self) -> Tt {
         clauses_tt(&self.clauses)
     }
+    /// the clause list a library `Cnf` object reports through its public accessor: checks about what is done
+    /// *with* a CNF take the object as their input (whether `Cnf::new` kept the generating list is C15's concern)
+    pub fn read_back(cnf: &Cnf) -> CnfCase {
+        CnfCase {
+            clauses: cnf
+                .clauses()
+                .iter()
+                .map(|c| c.iter().map(|l| (l.label().value() as u8, l.polarity())).collect())
+                .collect(),
+        }
+    }
     pub fn has_empty_clause(&self) -> bool {
         self.clauses.iter().any(|c| c.is_empty())
     }
@@ -194,6 +205,8 @@ pub fn cnf_strategy() -> BoxedStrategy<CnfCase> {
         // many clauses: the builders sort clauses with a non-total comparator, which only larger inputs exercise
         1 => (3u8..=7).prop_flat_map(|nv| proptest::collection::vec(proptest::collection::vec(lit_strategy(nv), 1..=3), 20..=44)),
         1 => (1u8..=7).prop_flat_map(|nv| clauses_strategy(nv, 6, 1, 1)),
+        // wide clauses: up to 14 literal occurrences, i.e. many repeated and complementary literals per clause
+        1 => (2u8..=7).prop_flat_map(|nv| clauses_strategy(nv, 5, 4, 14)),
         1 => Just(vec![]),
     ]
     .prop_map(|clauses| CnfCase { clauses })
